@@ -374,3 +374,44 @@ def gen_static(seed, n, first_id=1):
         res.append({"id": first_id + len(res), "env": env, "fconv": rng.choice(convs), "cconv": rng.choice(convs), "fargs": fargs2, "cargs": cargs,
                     "map": mp2, "imms": imms, "fp": rng.randrange(2)})
     return res
+
+
+# ----------------------------------------------------------------------------------------------------------
+# static cases with vector arguments passed BY REFERENCE (Win64: 16-byte vectors travel as a pointer to a temporary the
+# caller makes in its call area; vectorcall: the 7th+ vector).  f receives its vectors in registers (System V, or
+# vectorcall on Windows) and keeps a local with known contents live across the call.
+# ----------------------------------------------------------------------------------------------------------
+def gen_static_byref(first_id, full):
+    res = []
+    confs = [("x64-sysv", "cdecl", "x64win"), ("x64-win", "vectorcall", "cdecl")]
+    n = 0
+    for mask in range(1, 64):                       # which of the callee's positions 1..6 are vectors
+        pos = [b for b in range(6) if mask >> b & 1]
+        width = max(pos) + 1
+        for ci, (env, fconv, cconv) in enumerate(confs):
+            for live in ((0, 48) if full else (48,)):
+                for fp in ((0, 1) if full else ((mask + ci) % 2,)):
+                    vt = "f32x4" if (mask + ci) % 3 else "i32x4"
+                    k = len(pos)
+                    cargs, mp, imms = [], [], []
+                    dup = full and mask % 5 == 0 and k >= 2          # the same vector of f twice
+                    for j in range(width):
+                        if j in pos:
+                            cargs.append(vt)
+                            q = pos.index(j) + 1
+                            mp.append(1 if dup and q == k else q)
+                        else:
+                            cargs.append("i64" if j % 2 else "i32")
+                            mp.append(0)
+                            imms.append(101 + len(imms))
+                    fargs = [vt] * (k - 1 if dup else k)
+                    res.append({"id": first_id + n, "env": env, "fconv": fconv, "cconv": cconv, "fargs": fargs, "cargs": cargs,
+                                "map": mp, "imms": imms, "fp": fp, "live": live})
+                    n += 1
+    # vectorcall callee: six vectors in registers, the 7th (and 8th) by reference on the stack
+    for extra in (1, 2):
+        for live in (0, 48):
+            res.append({"id": first_id + n, "env": "x64-win", "fconv": "vectorcall", "cconv": "vectorcall", "fargs": ["f32x4"] * 6,
+                        "cargs": ["f32x4"] * (6 + extra), "map": [1, 2, 3, 4, 5, 6, 1, 2][:6 + extra], "imms": [], "fp": 0, "live": live})
+            n += 1
+    return res
